@@ -187,6 +187,10 @@ def _sql_s1(program, res, dialect: sqlexpr.Dialect, rows, registered, tmeth):
                         cavs = [cavs]
                     for t_ in sqlexpr.fold_function(fn):
                         text_ = sqlexpr.render(t_)
+                        # configured names of the dialect (dbmodel.string_type, …) are spelled out before the forms are matched
+                        for k_, v_ in t_:
+                            if k_ == "opaque" and v_.startswith("dbmodel.") and dialect.const_kwarg(v_.split(".", 1)[1]) is not None:
+                                text_ = text_.replace(f"⟨{v_}⟩", str(dialect.const_kwarg(v_.split(".", 1)[1])))
                         for cav in cavs:
                             if not probs and _re.search(cav[0], text_) and not _re.search(cav[1], text_):
                                 probs = [(f"{op}:form", cav[2], text_)]
